@@ -49,6 +49,17 @@ Theorem C17_build_networks : forall mynets pr,
 Proof. exact build_networks_char. Qed.
 Print Assumptions C17_build_networks.
 
+(* Certificate re-issue + reload (Interface.reloadFirewall): whenever the new configuration builds, the firewall in place
+   afterwards was built from the CURRENT certificate's unsafe networks - whether the rebuild was triggered by the config,
+   by the certificate, or not needed - so the node-side address of an allowed packet belongs to the current certificate. *)
+Theorem C17_reload : forall fw cs unsafe' changed dlca' inr outr fw' cs' incoming pkt h pr pl tracked,
+  reload_firewall fw cs unsafe' changed dlca' inr outr = (fw', cs') ->
+  forallb rule_valid inr && forallb rule_valid outr = true ->
+  drop fw' incoming pkt h pr pl tracked = VAllow ->
+  (exists n, In n (my_nets (fw_conf fw)) /\ fst n = pk_local pkt) \/ (exists u, In u unsafe' /\ contains u (pk_local pkt) = true).
+Proof. exact reload_local_authentic. Qed.
+Print Assumptions C17_reload.
+
 (* ---- non-vacuity: an allow-everything firewall still refuses unauthentic addresses ---- *)
 Definition ex_cf := mkConf [((true, 167772161), 24)] [((true, 3232235520), 24)] false.    (* me 10.0.0.1/24, unsafe 192.168.0.0/24 *)
 Definition ex_all := mkRule 0 0%Z 0%Z [] [97; 110; 121] CNone CAny [] [].                   (* any proto, any port, host any, local any *)
